@@ -37,8 +37,8 @@ def main(run):
     nm = 0
     for b in range(0, len(cases), 200):
         batch = cases[b : b + 200]
-        btab = evalcheck.batch_tables(batch, extra)
-        res, mism = evalcheck.run_batch(run, batch, "n%d" % b, invariants=("All",), tab=btab)
+        # one table for the whole run: float ranks recorded by the format readers and those TLC uses must agree
+        res, mism = evalcheck.run_batch(run, batch, "n%d" % b, invariants=("All",), tab=tab)
         if res.violated or not res.ok:
             fails = [ln for ln in res.out.splitlines() if ln.startswith('<<"F"')]
             raise MachineryFailure("KEval model: %s %s\n%s" % (res.violated, fails[:3], (res.error or res.out[-2000:])[:2500]))
